@@ -283,7 +283,7 @@ func trunc(s string, n int) string {
 
 func c15Gen(t *rapid.T) C15Case {
 	var c C15Case
-	nNames := rapid.SampledFrom([]int{0, 1, 2, 3, 7, 8, 9, 10, 17, 40}).Draw(t, "containers")
+	nNames := rapid.SampledFrom([]int{0, 1, 2, 3, 7, 8, 9, 10, 17, 40, 40, 255, 256, 257, 300}).Draw(t, "containers")
 	for i := 0; i < nNames; i++ {
 		c.Names = append(c.Names, fmt.Sprintf("ctr-%d", i))
 	}
